@@ -6,6 +6,8 @@ import (
 	"fmt"
 	"os"
 	"sort"
+	"strconv"
+	"strings"
 	"sync/atomic"
 	"time"
 )
@@ -197,7 +199,33 @@ func (x *explorer) capped() bool {
 		x.res.Capped = "time budget reached"
 		return true
 	}
+	if x.res.Executions%256 == 0 && rssMB() > rssLimitMB {
+		x.res.Capped = fmt.Sprintf("memory budget of the worker process (%d MB) reached", rssLimitMB)
+		return true
+	}
 	return false
+}
+
+// rssLimitMB: a worker that grows beyond this ends its job as capped (not exhaustive) instead of
+// being killed by the kernel. VERIF_WORKER_RSS_MB overrides.
+var rssLimitMB = func() int {
+	if v, err := strconv.Atoi(os.Getenv("VERIF_WORKER_RSS_MB")); err == nil && v > 0 {
+		return v
+	}
+	return 3000
+}()
+
+func rssMB() int {
+	b, err := os.ReadFile("/proc/self/statm")
+	if err != nil {
+		return 0
+	}
+	f := strings.Fields(string(b))
+	if len(f) < 2 {
+		return 0
+	}
+	pages, _ := strconv.Atoi(f[1])
+	return pages * os.Getpagesize() >> 20
 }
 
 func descs(e *Exec) []uint64 {
